@@ -80,3 +80,61 @@ func VerifC01Values(n, alpha int, allowUTF8, allowDup bool) {
 	vrt.Assert("C01/values/eof-iff-clean-stream", (err == io.EOF) == (tail == 0))
 	vrt.Assert("C01/values/value-count", values == wantN)
 }
+
+// Template variants: a concrete skeleton with symbolic holes ('?'), used to reach duplicate
+// names and other situations that need more bytes than a fully symbolic input affords.
+
+func VerifC01IsValidT(tmpl string, allowUTF8, allowDup bool) {
+	b := vrt.Template("b", tmpl)
+	got := Value(b).IsValid(AllowInvalidUTF8(allowUTF8), AllowDuplicateNames(allowDup))
+	want := zzspec.ValidText(b, !allowUTF8, !allowDup, 10000)
+	if want {
+		vrt.Cover("accept")
+	} else {
+		vrt.Cover("reject")
+	}
+	vrt.Observe("got", got)
+	vrt.Assert("C01/isvalid-iff-grammar", got == want)
+}
+
+func VerifC01TokensT(tmpl string, allowUTF8, allowDup bool) {
+	b := vrt.Template("b", tmpl)
+	d := new(Decoder)
+	d.s.reset(b, nil, AllowInvalidUTF8(allowUTF8), AllowDuplicateNames(allowDup))
+	values := 0
+	var err error
+	for {
+		_, err = d.ReadToken()
+		if err != nil {
+			break
+		}
+		if d.StackDepth() == 0 {
+			values++
+		}
+	}
+	wantN, tail := zzspec.ScanStream(b, !allowUTF8, !allowDup, 10000)
+	vrt.Observe("values", values)
+	vrt.Observe("eof", err == io.EOF)
+	vrt.Assert("C01/tokens/eof-iff-clean-stream", (err == io.EOF) == (tail == 0))
+	vrt.Assert("C01/tokens/value-count", values == wantN)
+}
+
+func VerifC01ValuesT(tmpl string, allowUTF8, allowDup bool) {
+	b := vrt.Template("b", tmpl)
+	d := new(Decoder)
+	d.s.reset(b, nil, AllowInvalidUTF8(allowUTF8), AllowDuplicateNames(allowDup))
+	values := 0
+	var err error
+	for {
+		_, err = d.ReadValue()
+		if err != nil {
+			break
+		}
+		values++
+	}
+	wantN, tail := zzspec.ScanStream(b, !allowUTF8, !allowDup, 10000)
+	vrt.Observe("values", values)
+	vrt.Observe("eof", err == io.EOF)
+	vrt.Assert("C01/values/eof-iff-clean-stream", (err == io.EOF) == (tail == 0))
+	vrt.Assert("C01/values/value-count", values == wantN)
+}
